@@ -31,6 +31,9 @@ MUT = {
  "M11-feature-role-swapped-on-refresh": ("spine/device_remote.go",
     "\tresult = NewFeatureRemote(uint(*fid.FeatureAddress.Feature), entity, *fid.FeatureType, *fid.Role)\n",
     "\trole := *fid.Role\n\tif len(entity.Features()) > 1 {\n\t\trole = model.RoleTypeServer\n\t}\n\tresult = NewFeatureRemote(uint(*fid.FeatureAddress.Feature), entity, *fid.FeatureType, role)\n"),
+ "M12-half-repair-only-removed-entries-removed": ("spine/nodemanagement_detaileddiscovery.go",
+    "\t\t\t\tentityAddress := ei.Description.EntityAddress.Entity\n\t\t\t\tremovedEntity := remoteDevice.RemoveEntityByAddress(entityAddress)\n",
+    "\t\t\t\tif ei.Description.LastStateChange != nil && *ei.Description.LastStateChange != model.NetworkManagementStateChangeTypeRemoved {\n\t\t\t\t\tcontinue\n\t\t\t\t}\n\t\t\t\tentityAddress := ei.Description.EntityAddress.Entity\n\t\t\t\tremovedEntity := remoteDevice.RemoveEntityByAddress(entityAddress)\n"),
 }
 names = sys.argv[1:] or list(MUT)
 results = {}
@@ -51,7 +54,21 @@ for n in names:
         r = subprocess.run(["./check", "C06", "quick"], cwd=W, env=dict(ENV, VERIF_REPO=d), capture_output=True, text=True, timeout=1500)
         viol = [l for l in r.stdout.splitlines() if l.startswith("VIOLATION") or l.startswith("  spec failure") or l.startswith("  correspondence")]
         results[n] = {"exit": r.returncode, "lines": [l[:260] for l in viol][:6], "tail": r.stdout.splitlines()[-1] if r.stdout else r.stderr[-200:]}
+        m = re.search(r"VIOLATION property=C06 replay=(\S+)", r.stdout)
+        if m:
+            rp = "/root/scratch/w-disc/selftest/replay-%s.json" % n.split("-")[0]
+            subprocess.run(["cp", m.group(1), rp])
+            a = subprocess.run(["./check", "C06", "quick", "--replay", rp], cwd=W, env=dict(ENV, VERIF_REPO=d), capture_output=True, text=True, timeout=900)
+            b2 = subprocess.run(["./check", "C06", "quick", "--replay", rp], cwd=W, env=ENV, capture_output=True, text=True, timeout=900)
+            results[n]["replay_on_mutant_exit"] = a.returncode
+            results[n]["replay_on_repo_exit"] = b2.returncode
     finally:
         subprocess.run(["git", "-C", "/repo", "worktree", "remove", "--force", d], capture_output=True)
     print(n, json.dumps(results[n], indent=1), flush=True)
-json.dump(results, open(os.path.join(W, "selftest", "C06-mutants.json"), "w"), indent=1)
+out = os.path.join(W, "selftest", "C06-mutants.json")
+try:
+    allr = json.load(open(out))
+except Exception:
+    allr = {}
+allr.update(results)
+json.dump(allr, open(out, "w"), indent=1)
